@@ -441,9 +441,9 @@ fn main() {
         eprintln!("replay_channel self-test failed: {e}");
         std::process::exit(3);
     }
-    let lines: Vec<String> = BufReader::new(std::io::stdin()).lines().map_while(Result::ok).filter(|l| l.trim_start().starts_with('{')).collect();
-    let lines = Arc::new(lines);
-    let next = Arc::new(AtomicU64::new(0));
+    // stdin is streamed to the workers (TLC can pipe hundreds of MB of behaviours without a file in between)
+    let (txq, rxq) = std::sync::mpsc::sync_channel::<(usize, String)>(256);
+    let rxq = Arc::new(Mutex::new(rxq));
     let total_steps = Arc::new(AtomicU64::new(0));
     let behaviours = Arc::new(AtomicU64::new(0));
     let tables = Arc::new(AtomicU64::new(0));
@@ -451,20 +451,19 @@ fn main() {
     let violations = Arc::new(Mutex::new(Vec::<Value>::new()));
     let classes = Arc::new(Mutex::new(HashSet::<String>::new()));
     let transitions = Arc::new(Mutex::new(HashSet::<u64>::new()));
+    let first_sample = Arc::new(Mutex::new(None::<Value>));
     let mut handles = Vec::new();
     for _ in 0..threads.max(1) {
-        let (lines, next, total_steps, behaviours, violations, classes, transitions) =
-            (lines.clone(), next.clone(), total_steps.clone(), behaviours.clone(), violations.clone(), classes.clone(), transitions.clone());
-        let (tables, table_rows) = (tables.clone(), table_rows.clone());
+        let (rxq, total_steps, behaviours, violations, classes, transitions) =
+            (rxq.clone(), total_steps.clone(), behaviours.clone(), violations.clone(), classes.clone(), transitions.clone());
+        let (tables, table_rows, first_sample) = (tables.clone(), table_rows.clone(), first_sample.clone());
         handles.push(std::thread::spawn(move || {
             let mut my_classes = HashSet::new();
             let mut my_trans = HashSet::new();
             loop {
-                let k = next.fetch_add(1, Ordering::SeqCst) as usize;
-                if k >= lines.len() {
-                    break;
-                }
-                let Ok(b) = serde_json::from_str::<Value>(&lines[k]) else { continue };
+                let item = { rxq.lock().unwrap().recv() };
+                let Ok((k, line)) = item else { break };
+                let Ok(b) = serde_json::from_str::<Value>(&line) else { continue };
                 // a violation replay file wraps the behaviour
                 let b = if b.get("behaviour").is_some() { b["behaviour"].clone() } else { b };
                 if b.get("buf").is_some() {
@@ -485,6 +484,9 @@ fn main() {
                 }
                 if b.get("steps").is_none() {
                     continue;
+                }
+                if k == 0 {
+                    *first_sample.lock().unwrap() = Some(b.clone());
                 }
                 let o = run_behaviour(&b, &mut my_classes, &mut my_trans);
                 behaviours.fetch_add(1, Ordering::SeqCst);
@@ -509,6 +511,19 @@ fn main() {
             transitions.lock().unwrap().extend(my_trans);
         }));
     }
+    {
+        let mut k = 0usize;
+        for line in BufReader::new(std::io::stdin()).lines().map_while(Result::ok) {
+            if !line.trim_start().starts_with('{') {
+                continue;
+            }
+            if txq.send((k, line)).is_err() {
+                break;
+            }
+            k += 1;
+        }
+        drop(txq);
+    }
     for h in handles {
         let _ = h.join();
     }
@@ -530,5 +545,6 @@ fn main() {
         "distinct_transitions": transitions.lock().unwrap().len(),
         "tables": tables.load(Ordering::SeqCst),
         "table_rows": table_rows.load(Ordering::SeqCst),
+        "first_behaviour": first_sample.lock().unwrap().clone(),
     }));
 }
